@@ -95,7 +95,7 @@ func (solarWeek *SolarWeek) GetDaysInMonth() *list.List {
 	days := solarWeek.GetDays()
 	l := list.New()
 	for i := days.Front(); i != nil; i = i.Next() {
-		day := i.Value.(Solar)
+		day := i.Value.(*Solar)
 		if solarWeek.month == day.month {
 			l.PushBack(day)
 		}
